@@ -19,11 +19,13 @@
       (`SwitchEdge`) demands the key and the hash / value of the branch the key routes to, and no other branch.  With
       cache edges the machine executes a subset (a hit asks for nothing upstream).
 
-  Not proved: the converse for cache-free graphs (every demanded call is executed when the call returns); it is
-  implied for the *values* by C01 and checked for the logs by the correspondence S-VM/S-REL and the call-log oracle.
+    * `all_needed`: conversely, on a cache-free graph, when the call returns every user function that this evaluation
+      demands is in the log (`CM.Proofs.Exactly.big_exact`: whatever is memoised has been fully evaluated).  Hence
+      exactly the needed functions, each exactly once.
 -/
 import CM.Props.C01
 import CM.Proofs.Needed
+import CM.Proofs.Exactly
 namespace CM.C03
 open CM
 
@@ -45,6 +47,12 @@ theorem only_needed (F : Fam) (g : Graph) (ok : GraphOKC g) (env : String → Op
     (hrun : g.call env w fuel = some (o, steps)) :
     ∀ r ∈ o.mem.world.log, ∃ hp, Need g (denCfgOf env w) (false, g.output) hp r.node :=
   call_only_needed F g ok env w hc hF hst hlog fuel steps o hrun
+
+/-- **Everything needed runs** (cache-free graphs, returning calls). -/
+theorem all_needed (g : Graph) (ok : GraphOK g) (env : String → Option Val) (w : World) (hc : CallOK g env)
+    (fuel steps : Nat) (x : Item) (s : St) (hrun : g.call env w fuel = some (.done x s, steps)) :
+    ∀ hp n, Need g (denCfgOf env w) (false, g.output) hp n → CallsOf g (denCfgOf env w) hp n → Executed s.mem n :=
+  call_exactly g ok env w hc fuel steps x s hrun
 
 /-- **Branches of Merge not selected by the id are not demanded.** -/
 theorem merge_branches (c : Ctx) (t : List (Val × Nat)) (a : Nat) :
